@@ -29,7 +29,7 @@ def run(tier: str, seed: int, replay=None) -> int:
             "identity-compared objects, value-equal twins, lists compared as sets",
         ],
         assume=[
-            "queries are tree-shaped: every Attribute/Comparator/logical node object occurs once (node reuse is finding class K_sharednode, replayed from its witness)",
+            "the model is variable level: a Comparator / logical node object occurs once; mapping nodes (attribute, index, call) used several times are generated (profile share) and must meet the Spec like trees (C01-e, repaired in da356f6)",
             "vocabulary modelled: variables over explicit domains, literals, attribute chains, ==,!=,<,<=,>,>=, contains/in_, and_, or_, not_, entity/set_of; "
             "exists/for_all are covered by the theorems under the static side conditions wfq / ok TS / ok TC (Props/C01.v: C01_q_sound_complete); the proved fragment of every generated case is the flag case_in_F01 COMPUTED IN COQ (theorem C01_fragment_flag), not a Python predicate; indexing and method calls on attribute values are modelled as one attribute step (functions of the value); flatten(e) and nested sub-queries z = an(entity(z0, c)) used as operands / selected expressions are GENERATED variables of the model Eql/EvalDep.v (the evaluator of Eql/Eval.v with the evaluation of a variable abstracted; with no declaration it IS that evaluator: C01b_conservative_eval / _run) with Spec Eql/EvalDepSpec.v and theorems Props/C01b.v (C01b_sound_complete for every quantifier-free main and sub-query condition, any selection, flatten of flatten; side condition: no variable can be left without a value -- empty domain / empty flattened collection / sub-query without answer are findings C01-h / C01-h2, C01b_refuted_emptyflat / _emptysub); every eighth generated case each is such a query (harness/eqlgen.py gen_flat_case / gen_subq_case, plus collections that may be empty, sub-queries that may have no answer, collections of value-equal twins), classified three ways like the ordinary cases: inside the flag dcase_in_FD COMPUTED IN COQ (theorem C01b_fragment_flag) implementation = Spec or VIOLATION and model = implementation (obligation correspondence:model-dep); outside it (exists over a flattened collection; the empty-range class) a disagreement is tolerated only for the listed open classes K_emptyflat / K_emptydom with implementation = model, anything else is a VIOLATION; the Spec\'s rows are additionally cross-checked on every such case against the first-order reading evaluated by the plain Spec Eql/Sat.v (z = flatten(e): a variable with the conjunct contains(e, z); z = an(entity(z0, c)): a variable over z0\'s domain with the conjunct c; obligation correspondence:dep-spec = spec_case; not applicable to collections of value-equal twins, where contains compares with ==); assumed for these constructs: a flatten / sub-query node is not used as the variable of for_all or as a bare condition (its truth flag is then refreshed), sub-query conditions do not quantify; predicates are C12, match is C11",
             "CPython generator protocol",
